@@ -61,8 +61,12 @@ func (publisherSelf *PublisherDef[T]) Unsubscribe(s *Subscription[T]) {
 		for i, v := range subscribers {
 			if v == s {
 				isAnyMatching = true
-				subscribers = append(subscribers[:i], subscribers[i+1:]...)
-				publisherSelf.subscribers = subscribers
+				// copy-on-write: a Publish in progress iterates a snapshot that shares
+				// the old backing array, which must not be compacted in place
+				remaining := make([]*Subscription[T], 0, len(subscribers)-1)
+				remaining = append(remaining, subscribers[:i]...)
+				remaining = append(remaining, subscribers[i+1:]...)
+				publisherSelf.subscribers = remaining
 				break
 			}
 		}
